@@ -775,6 +775,14 @@ func (e *Engine) binopFacts(v *ssa.BinOp, pol bool, fs factSet) {
 		}
 		if c, ok := y.(*ssa.Const); ok && c.Value != nil && c.Value.Kind() == constant.String {
 			s := constant.StringVal(c.Value)
+			if s == "" {
+				lt := Term{Kind: 1, K: e.keyOf(x)}
+				if op == token.EQL {
+					fs.add(Fact{Kind: "le", A: lt, B: Term{}, C: 0})
+				} else if op == token.NEQ {
+					fs.add(Fact{Kind: "le", A: Term{}, B: lt, C: -1})
+				}
+			}
 			if (op == token.EQL && s != "") || (op == token.NEQ && s == "") {
 				if call, ok := x.(*ssa.Call); ok {
 					if callee := call.Call.StaticCallee(); callee != nil {
